@@ -2,7 +2,7 @@
 """Fail-closed translator: arithmetic and expression-level code of votelib -> Gallina.
 
 usage: py2v.py <repo> <outdir>
-Writes <outdir>/{Divisor,Quota,Pairwin,Rankscore,Threshold,Approval,Openlist,Signatures}.v, <outdir>/Signatures.json and <outdir>/STATUS.json
+Writes <outdir>/{Divisor,Quota,Pairwin,Rankscore,Threshold,Approval,Openlist,Core,CoreQsel,Signatures}.v, <outdir>/Signatures.json and <outdir>/STATUS.json
 (per unit: status ok | partial | failed, per definition ok | "unsupported: <why> at line N: <ast node>").
 
 1. Untyped function translator (component/divisor.py, component/quota.py).  Accepted subset (anything else raises
@@ -21,6 +21,8 @@ Writes <outdir>/{Divisor,Quota,Pairwin,Rankscore,Threshold,Approval,Openlist,Sig
    subset and TYPED_JOBS / RANK_TYPED for what is extracted from which method (whole body, the condition of a comprehension,
    a loop's test, the statements up to a local).  Parameters of a generated definition are the attributes and arguments
    the code reads, with declared types; locals and loop variables are bound by position, so renaming them changes nothing.
+   Unit Core (util.sorted_votes, core.get_n_best, Plurality.evaluate as whole bodies; CoreQsel: QuotaSelector.evaluate on top of the
+   generated get_n_best): see CORE_UTIL / CORE_CORE / COREQSEL and translate_core; primitives read by Prelude/PySeq.v.
 5. Class / signature tables (every class of votelib/**/*.py -> Gen/Signatures.v + Signatures.json): how to_dict comes about and its
    keys, constructor parameters and how __init__ stores each (Stored | StoredAs | Transformed line | NotStored), attribute writes after
    construction, mutable default arguments, evaluate / convert / validate parameter lists - see the comment above class SigTables.
@@ -390,6 +392,11 @@ def translate_rankscore(path, wanted, module):
 #           | D = {} [S = set()] .. for k, v in e.items(): if c: D[k] = v [else: S.add(k)]   (-> filter; S is dead)
 #           | try: body except TypeError: raise RuntimeError(..)                 (-> body: typed values never raise TypeError)
 #           | def f(..): ..   (only usable as the key of sorted())
+#           | a, b = pair | x = None (start value of a loop variable only)
+#           | x1 = e1 .. for t in e: <assignments / appends / ifs updating x1 ..>   (-> fold_left over e, see TX.for_fold)
+#           | return f(..) for a translated raising function (tail call)
+#    in a definition declared raising, l[i] (IndexError) and `n - x` with x possibly None (TypeError) are hoisted in evaluation order:
+#    match <op> with Some v => <the statement and what follows> | None => inr <exception> end   (see TX.hoist)
 #    e ::= int | name | self.a | e (+|-|*) e | l + l | l * e | not e | e and e | e or e | e (<|<=|>|>=|==|!=) e | e in l
 #        | e if c else e | Fraction(e, e) | Fraction(e) | len(e) | sum(e.values()) | votelib.util.sorted_votes(e) | range(e) | max/min(e, e)
 #        | e[:e] | [e, ..] | [e for x in e if c] | frozenset(e for x in e for y in e ..) | list(sorted(S, key=f)) (order dropped)
@@ -397,6 +404,8 @@ def translate_rankscore(path, wanted, module):
 #        | {k: e for x in e} | d.values() | d.get(k, e) | d[k] (k a key of d) | frozenset(l)
 #        | c.attr / c.meth() for a candidate c and a declared observer ('obs:attr' parameter: the attribute as a function)
 #        | x is (not) None as the test of an if statement, for a parameter declared optional
+#        | sorted(l, key=operator.itemgetter(i) | lambda x: e, reverse=b) (numeric key: py_sorted) | d.items() | list(l) | list(reversed(l))
+#        | l[::-1] | t[0] t[1] of a pair | l[i] | enumerate(l) as an iterable | Tie(l) | m.f(..) for a translated function of module m
 #  Anything else raises Unsupported naming the node: the definition is marked failed (fail closed).
 # atomic types are 'Z' 'Q' 'B' 'C' and lowercase words; compound types are tuples tagged 'L' 'S' 'U' 'O' 'P' 'F' (no overlap, so
 # that ty[0] identifies a constructor also when ty is an atom)
@@ -493,6 +502,16 @@ class TX:
         self.notes = []
         self.fresh = set()        # python names bound to a freshly built list (safe to extend in place)
         self.reach = None         # 'reach' extraction: translate up to the assignment of this local (Some value); an earlier return gives None
+        # operations that may raise inside an expression (list index -> IndexError, arithmetic on a value that may be None ->
+        # TypeError) are hoisted, in evaluation order, in front of the statement that evaluates them:
+        #   match <op> with Some v => <statement and everything after it> | None => inr <exception> end
+        # pending is None where nothing may be hoisted (non-raising definition, conditionally evaluated subexpression, loop body)
+        self.pending = [] if raises else None
+        self.refine = []          # (python reference, coq name, type): an optional local proved not None by a hoisted test
+        self.nhoist = 0
+        self.in_fold = False      # inside the body of a loop translated as a fold: no return / raise / hoisted operation
+        self.imports = set()      # dotted module names the source file imports with a plain `import a.b.c`
+        self.module_names = {}    # name -> how the module binds it at top level ('class:frozenset', 'import', ..) when bound exactly once
 
     # ---- types
     def coerce(self, text, have, want, node):
@@ -502,7 +521,49 @@ class TX:
             return '(inject_Z %s)' % text
         if have == TL(T_Z) and want == TL(T_Q):
             return '(map inject_Z %s)' % text
+        if have == TL(T_C) and want == TL(T_RES):
+            return '(map (@Cand C) %s)' % text      # a list of candidates where selection items (candidate | Tie) are expected
         die(node, 'type %s where %s is expected' % (have, want))
+
+    # ---- operations that may raise inside an expression
+    def hoist(self, term, exn, ty, node):
+        if not self.raises:
+            die(node, 'operation that may raise %s in a definition that is not declared raising' % exn)
+        if self.pending is None:
+            die(node, 'operation that may raise %s inside a conditionally evaluated expression or a loop body' % exn)
+        self.nhoist += 1
+        var = "e'h%d" % self.nhoist
+        self.pending.append((var, term, exn))
+        return var, ty
+
+    def take(self):
+        """the operations hoisted by the expression(s) just translated (the caller wraps its statement in them)"""
+        hs = self.pending or []
+        if self.pending is not None:
+            self.pending = []
+        return hs
+
+    def refined(self, env):
+        if self.refine:
+            env = dict(env)
+            for r, var, ty in self.refine:
+                env[r] = (var, ty)
+            self.refine = []
+        return env
+
+    @staticmethod
+    def wraph(hs, text):
+        for var, term, exn in reversed(hs):
+            text = '(match %s with Some %s => %s | None => inr %s end)' % (term, var, text, exn)
+        return text
+
+    def quiet(self, f):
+        """run f where nothing may be hoisted (conditionally / repeatedly evaluated code)"""
+        saved, self.pending = self.pending, None
+        try:
+            return f()
+        finally:
+            self.pending = saved
 
     def unify(self, a, b, node):
         (ta, ya), (tb, yb) = a, b
@@ -524,14 +585,36 @@ class TX:
         if r is None or r not in env:
             die(e, 'unknown name')
         text, ty = env[r]
-        if not isinstance(ty, (str, tuple)) or ty in ('EMPTYLIST', 'EMPTYDICT', 'EMPTYSET', 'DEAD', 'KEYFN'):
+        if not isinstance(ty, (str, tuple)) or ty in ('EMPTYLIST', 'EMPTYDICT', 'EMPTYSET', 'DEAD', 'KEYFN', 'NONE'):
             die(e, 'name %s (%s) cannot be used as a value here' % (r, ty))
         if ty[0] == 'O':
             die(e, 'name %s may be None here (test it with `is not None` first)' % r)
         return text, ty
 
+    def arith_operand(self, node, x, other, env):
+        """operand x of the arithmetic node: a local that may be None makes `+ - *` with a number raise TypeError - the test is
+           hoisted (and the local is known not to be None afterwards); the other operand must be a plain reference / literal so
+           that nothing else is evaluated in between"""
+        r = self.ref(x)
+        if (r is not None and r in env and isinstance(env[r][1], tuple) and env[r][1][0] == 'O' and env[r][1][1] in (T_Z, T_Q)
+                and isinstance(node.op, (ast.Add, ast.Sub, ast.Mult)) and self.raises and self.pending is not None):
+            simple = (self.ref(other) is not None and self.ref(other) in env) or (
+                isinstance(other, ast.Constant) and isinstance(other.value, int) and not isinstance(other.value, bool))
+            if not simple:
+                die(node, 'arithmetic on %s, which may be None, with an operand that is not a plain reference' % r)
+            if self.ref(other) is not None:
+                oty = env[self.ref(other)][1]
+                if not (oty in (T_Z, T_Q) or (isinstance(oty, tuple) and oty[0] == 'O' and oty[1] in (T_Z, T_Q))):
+                    die(node, 'arithmetic on %s, which may be None, with a %s' % (r, oty))
+            var, ty = self.hoist(env[r][0], 'PyTypeError', env[r][1][1], node)
+            self.refine.append((r, var, ty))
+            return var, ty
+        return self.expr(x, env)
+
     # ---- expressions
     def expr(self, e, env):
+        if isinstance(e, (ast.DictComp, ast.BoolOp, ast.IfExp, ast.ListComp)) and self.pending is not None:
+            return self.quiet(lambda: self.expr(e, env))      # parts of these are evaluated conditionally / repeatedly
         if isinstance(e, ast.Constant):
             if isinstance(e.value, bool):
                 return ('true' if e.value else 'false'), T_B
@@ -563,9 +646,11 @@ class TX:
             return ('(py_dict_%s (map (fun it_ => %s(%s, %s)) %s))' % ('c' if k[1] == T_C else 'z', pre, k[0], v[0], it),
                     ('U', dty) if self.is_unordered(g.iter, env) else TL(dty))
         if isinstance(e, ast.BinOp):
-            a, b = self.expr(e.left, env), self.expr(e.right, env)
+            a, b = self.arith_operand(e, e.left, e.right, env), self.arith_operand(e, e.right, e.left, env)
             if isinstance(e.op, ast.Add) and a[1][0] == 'L' and a[1] == b[1]:
                 return '(%s ++ %s)' % (a[0], b[0]), a[1]
+            if isinstance(e.op, ast.Add) and {a[1], b[1]} == {TL(T_C), TL(T_RES)}:
+                return '(%s ++ %s)' % (self.coerce(a[0], a[1], TL(T_RES), e), self.coerce(b[0], b[1], TL(T_RES), e)), TL(T_RES)
             if isinstance(e.op, ast.Mult) and a[1][0] == 'L' and b[1] == T_Z:
                 return '(py_list_mul %s %s)' % (a[0], b[0]), a[1]
             ops = {ast.Add: '+', ast.Sub: '-', ast.Mult: '*'}
@@ -623,8 +708,20 @@ class TX:
                 a, n = self.expr(e.value, env), self.expr(sl.upper, env)
                 if a[1][0] == 'L' and n[1] == T_Z:
                     return '(py_slice_to %s %s)' % (a[0], n[0]), a[1]
+            if isinstance(sl, ast.Slice) and sl.lower is None and sl.upper is None and ast.unparse(sl.step or ast.Constant(value=1)) == '-1':
+                a = self.expr(e.value, env)
+                if a[1][0] == 'L':
+                    return '(rev %s)' % a[0], a[1]            # l[::-1]
             if not isinstance(sl, ast.Slice):
-                a, k = self.expr(e.value, env), self.expr(sl, env)
+                a = self.expr(e.value, env)
+                # t[0] / t[1] of a pair
+                if a[1][0] == 'P' and isinstance(sl, ast.Constant) and sl.value in (0, 1) and not isinstance(sl.value, bool):
+                    return '(%s %s)' % ('snd' if sl.value else 'fst', a[0]), a[1][2 if sl.value else 1]
+                k = self.expr(sl, env)
+                # l[i] of a list with an int i (negative i from the end; IndexError out of range: hoisted).  A list of pairs
+                # whose first component is an int is read as a dictionary below, as before.
+                if a[1][0] == 'L' and k[1] == T_Z and not (a[1][1][0] == 'P' and a[1][1][1] == T_Z):
+                    return self.hoist('(py_index %s %s)' % (a[0], k[0]), 'PyIndexError', a[1][1], e)
                 if a[1][0] in ('L', 'U') and a[1][1][0] == 'P' and a[1][1][1] == k[1] and k[1] in (T_C, T_Z):
                     vt = a[1][1][2]
                     if vt[0] in ('L', 'S'):
@@ -672,18 +769,17 @@ class TX:
             nm = self.newname(env, target.id)
             env[target.id] = (nm, elt_type)
             return env, 'let %s := %s in ' % (nm, var)
-        if isinstance(target, ast.Tuple) and len(target.elts) == 2 and all(isinstance(x, ast.Name) for x in target.elts) \
+        if isinstance(target, ast.Tuple) and len(target.elts) == 2 and all(isinstance(x, (ast.Name, ast.Tuple)) for x in target.elts) \
                 and elt_type[0] == 'P':
-            a, b = target.elts[0].id, target.elts[1].id
             pre = ''
-            if a != '_':
-                nm = self.newname(env, a)
-                env[a] = (nm, elt_type[1])
-                pre += 'let %s := fst %s in ' % (nm, var)
-            if b != '_':
-                nm = self.newname(env, b)
-                env[b] = (nm, elt_type[2])
-                pre += 'let %s := snd %s in ' % (nm, var)
+            for x, proj, ty in ((target.elts[0], 'fst', elt_type[1]), (target.elts[1], 'snd', elt_type[2])):
+                if isinstance(x, ast.Tuple):
+                    env, p2 = self.bind_target(x, '(%s %s)' % (proj, var), ty, env, node)     # for i, (a, b) in ..
+                    pre += p2
+                elif x.id != '_':
+                    nm = self.newname(env, x.id)
+                    env[x.id] = (nm, ty)
+                    pre += 'let %s := %s %s in ' % (nm, proj, var)
             return env, pre
         die(node, 'loop target')
 
@@ -692,7 +788,8 @@ class TX:
                 'Type', 'Prop', 'Set', 'return', 'where', 'for', 'using', 'pair', 'fst', 'snd', 'map', 'filter', 'flat_map', 'list',
                 'nat', 'Z', 'Q', 'C', 'cons', 'nil', 'bool', 'true', 'false', 'inl', 'inr', 'sum', 'seq', 'repeat', 'length', 'app',
                 'Some', 'None', 'option', 'negb', 'andb', 'orb', 'inject_Z', 'cmem', 'sort_desc', 'Qle_bool', 'get_n_best', 'res',
-                'unit', 'tt', 'String', 'string', 'pyexn', 'it_'}
+                'unit', 'tt', 'String', 'string', 'pyexn', 'it_', 'st_', 'rev', 'fold_left', 'Cand', 'TieR', 'Gen', 'combine', 'nth_error',
+                'firstn', 'concat', 'eqv', 'sort_asc', 'insert_desc', 'insert_asc', 'first_eq_index'}
 
     def ident(self, name):
         """Coq identifier for a Python name: injective (a name that had to be changed carries a quote, which no Python
@@ -724,10 +821,69 @@ class TX:
             if ty[0] in ('L', 'U') and ty[1][0] == 'P':
                 return t, ty[1]
             die(e, '.items() of a %s' % (ty,))
+        if isinstance(e, ast.Call) and isinstance(e.func, ast.Name) and e.func.id == 'enumerate' and len(e.args) == 1 and not e.keywords \
+                and not isinstance(e.args[0], ast.Starred):
+            self.builtin('enumerate', e, env)
+            t, ty = self.expr(e.args[0], env)
+            if ty[0] == 'L':
+                return '(py_enumerate %s)' % t, TP(T_Z, ty[1])
+            die(e, 'enumerate of a %s' % (ty,))
         t, ty = self.expr(e, env)
         if ty[0] in ('L', 'S'):
             return t, ty[1]
         die(e, 'iteration over a %s' % (ty,))
+
+    def builtin(self, name, node, env):
+        """the name is the builtin: not a local here, never bound by the module"""
+        if name in env or self.module_names.get(name) is not None:
+            die(node, 'the name %s is bound by the source, the translator reads it as the builtin' % name)
+
+    def known_call(self, k, e, env, tail):
+        """call of a translated function (arguments by position, defaults from the source)"""
+        if e.keywords or len(e.args) > len(k['params']):
+            die(e, 'argument list of %s' % k['coq'])
+        out = []
+        for i, (pn, pt, pd) in enumerate(k['params']):
+            if i < len(e.args):
+                a = self.expr(e.args[i], env)
+                out.append(self.coerce(a[0], a[1], pt, e))
+            elif pd is not None:
+                out.append(pd)
+            else:
+                die(e, 'missing argument %s' % pn)
+        if k['raises'] and not tail:
+            die(e, 'call of a raising function inside an expression')
+        return '(%s %s)' % (k['coq'], ' '.join(out)), k['ret']
+
+    def tail_call(self, e):
+        """the translated raising function that `return f(..)` hands over to, or None"""
+        if isinstance(e, ast.Call) and self.raises:
+            nm = ast.unparse(e.func)
+            k = self.known.get(nm)
+            if k is not None and k['raises'] and (k.get('module') is not None or isinstance(e.func, ast.Name)):
+                return k
+        return None
+
+    def sort_key(self, kn, ety, env):
+        """key= of sorted(): operator.itemgetter(0|1) or a one-argument lambda -> (coq function, key type)"""
+        if isinstance(kn, ast.Call) and ast.unparse(kn.func) == 'operator.itemgetter' and len(kn.args) == 1 and not kn.keywords \
+                and isinstance(kn.args[0], ast.Constant) and kn.args[0].value in (0, 1) and not isinstance(kn.args[0].value, bool):
+            if 'operator' in env or self.module_names.get('operator') != 'import':
+                die(kn, 'the name operator is not the plain import of the operator module')
+            if ety[0] != 'P':
+                die(kn, 'itemgetter on a %s' % (ety,))
+            i = kn.args[0].value
+            return '(@%s %s %s)' % ('snd' if i else 'fst', coq_type(ety[1]), coq_type(ety[2])), ety[2 if i else 1]
+        if isinstance(kn, ast.Lambda):
+            a = kn.args
+            if len(a.args) != 1 or a.posonlyargs or a.kwonlyargs or a.vararg or a.kwarg or a.defaults:
+                die(kn, 'sort key lambda must take one argument')
+            env2 = dict(env)
+            nm = self.newname(env2, a.args[0].arg)
+            env2[a.args[0].arg] = (nm, ety)
+            t, ty = self.quiet(lambda: self.expr(kn.body, env2))
+            return '(fun %s : %s => %s)' % (nm, coq_type(ety), t), ty
+        return None
 
     _comp_type = None
 
@@ -773,6 +929,39 @@ class TX:
         args = e.args
         if any(isinstance(a, ast.Starred) for a in args):
             die(e, '* arguments')
+        # a translated function of ANOTHER module, called by its dotted name (the module must be imported plainly)
+        if name in self.known and self.known[name].get('module') is not None:
+            k = self.known[name]
+            if k['module'] not in self.imports or name.split('.')[0] in env:
+                die(e, 'the source does not reach %s through a plain `import %s`' % (name, k['module']))
+            return self.known_call(k, e, env, False)
+        # Tie(l): the tie object of votelib.evaluate.core (a frozenset: carried as the list it is built from)
+        if name == 'Tie' and self.module_names.get('Tie') == 'class:frozenset' and 'Tie' not in env and len(args) == 1 and not kw:
+            a = self.expr(args[0], env)
+            if a[1] in (TL(T_C), TS(T_C)):
+                return '(TieR %s)' % a[0], T_RES
+            die(e, 'Tie of a %s' % (a[1],))
+        # d.items() of an ordered dictionary as a value: the list of its pairs
+        if isinstance(fn, ast.Attribute) and fn.attr == 'items' and not args and not kw:
+            a = self.expr(fn.value, env)
+            if a[1][0] == 'L' and a[1][1][0] == 'P':
+                return a
+            die(e, '.items() of a %s' % (a[1],))
+        # sorted(l, key=operator.itemgetter(i) | lambda, reverse=b) with a numeric key: stable, CPython's reading of reverse
+        if name == 'sorted' and len(args) == 1 and set(kw) <= {'key', 'reverse'} and 'key' in kw \
+                and (isinstance(kw['key'], ast.Lambda) or (isinstance(kw['key'], ast.Call) and ast.unparse(kw['key'].func) == 'operator.itemgetter')):
+            a = self.expr(args[0], env)
+            if a[1][0] != 'L':
+                die(e, 'sorted (with a key) of a %s' % (a[1],))
+            kf, kty = self.sort_key(kw['key'], a[1][1], env)
+            if kty not in (T_Q, T_Z):
+                die(e, 'sort key of type %s' % (kty,))
+            rv = ('false', T_B)
+            if 'reverse' in kw:
+                rv = self.expr(kw['reverse'], env)
+                if rv[1] != T_B:
+                    die(e, 'reverse= of type %s' % (rv[1],))
+            return '(py_sorted %s %s %s %s)' % (kf, 'Qle_bool' if kty == T_Q else 'Z.leb', a[0], rv[0]), a[1]
         if name == 'Fraction' and len(args) == 2 and not kw:
             a, b = self.expr(args[0], env), self.expr(args[1], env)
             return '(py_frac %s %s)' % (self.coerce(a[0], a[1], T_Q, e), self.coerce(b[0], b[1], T_Q, e)), T_Q
@@ -823,11 +1012,23 @@ class TX:
                     self.cond(fn.test, env), ast.unparse(fn.body), a[0], ast.unparse(fn.orelse), a[0]), T_Q
             return '(py_%s_list %s)' % (name, a[0]), T_Q
         if name in ('frozenset', 'set') and len(args) == 1 and not kw and isinstance(args[0], ast.GeneratorExp):
-            t = self.comp(args[0].elt, args[0].generators, env, e)
+            t = self.quiet(lambda: self.comp(args[0].elt, args[0].generators, env, e))
             return t, TS(self._comp_type[1])
         # list(sorted(S, key=f)) / sorted(S, key=f): a permutation of S; the order is NOT translated (result typed as a set)
         if name == 'list' and len(args) == 1 and not kw and isinstance(args[0], ast.Call) and ast.unparse(args[0].func) == 'sorted':
             return self.call(args[0], env)
+        if name == 'list' and len(args) == 1 and not kw and isinstance(args[0], ast.Call) and isinstance(args[0].func, ast.Name) \
+                and args[0].func.id == 'reversed' and len(args[0].args) == 1 and not args[0].keywords:
+            self.builtin('reversed', e, env)
+            a = self.expr(args[0].args[0], env)
+            if a[1][0] == 'L':
+                return '(rev %s)' % a[0], a[1]      # list(reversed(l))
+            die(e, 'reversed of a %s' % (a[1],))
+        if name == 'list' and len(args) == 1 and not kw:
+            a = self.expr(args[0], env)
+            if a[1][0] == 'L':
+                return a             # list(l) of a list: a copy
+            die(e, 'list of a %s' % (a[1],))
         if name == 'sorted' and len(args) == 1 and set(kw) <= {'key', 'reverse'}:
             a = self.expr(args[0], env)
             if 'key' in kw:
@@ -875,21 +1076,7 @@ class TX:
             die(e, 'evaluate call')
         # translated function of this unit
         if isinstance(fn, ast.Name) and fn.id in self.known and fn.id not in env:
-            k = self.known[fn.id]
-            if kw or len(args) > len(k['params']):
-                die(e, 'argument list of %s' % fn.id)
-            out = []
-            for i, (pn, pt, pd) in enumerate(k['params']):
-                if i < len(args):
-                    a = self.expr(args[i], env)
-                    out.append(self.coerce(a[0], a[1], pt, e))
-                elif pd is not None:
-                    out.append(pd)
-                else:
-                    die(e, 'missing argument %s' % pn)
-            if k['raises']:
-                die(e, 'call of a raising function inside an expression')
-            return '(%s %s)' % (k['coq'], ' '.join(out)), k['ret']
+            return self.known_call(self.known[fn.id], e, env, False)
         # function-typed name / attribute
         if self.ref(fn) is not None and not kw:
             f = self.lookup(fn, env)
@@ -930,7 +1117,23 @@ class TX:
                 return 'None'            # the function returns before the extracted local is assigned
             if s.value is None:
                 die(s, 'return form')
-            return self.finish(s.value, env)
+            if self.in_fold:
+                die(s, 'return inside a loop')
+            k = self.tail_call(s.value)
+            if k is not None:
+                # return f(..) of a translated raising function: its result (value or exception) is the result
+                if k.get('module') is not None and (k['module'] not in self.imports or ast.unparse(s.value.func).split('.')[0] in env):
+                    die(s, 'the source does not reach %s through a plain import' % ast.unparse(s.value.func))
+                if k.get('module') is None and s.value.func.id in env:
+                    die(s, 'local name %s shadows the translated function' % s.value.func.id)
+                t, ty = self.known_call(k, s.value, env, True)
+                if self.ret_type is None:
+                    self.ret_type = ty
+                elif ty != self.ret_type:
+                    die(s, 'result type %s of the called function where %s is expected' % (ty, self.ret_type))
+                return self.wraph(self.take(), t)
+            t = self.finish(s.value, env)
+            return self.wraph(self.take(), t)
         ap = self.append_stmt(s)
         if ap is not None:
             r, item = ap
@@ -938,11 +1141,13 @@ class TX:
                 die(s, 'unknown name')
             env = dict(env)
             t, ty = self.expr(item, env)
+            hs = self.take()
+            env = self.refined(env)
             nm = self.newname(env, r)
             if env[r][1] == 'EMPTYLIST':
                 env[r] = (nm, TL(ty))
                 self.fresh.add(r)
-                return 'let %s := [%s] in\n  %s' % (nm, t, self.block(rest, env, final))
+                return self.wraph(hs, 'let %s := [%s] in\n  %s' % (nm, t, self.block(rest, env, final)))
             cur = self.lookup(s.value.func.value, env)
             if cur[1][0] != 'L' or r not in self.fresh:
                 die(s, 'append to a list that may be shared with the caller')
@@ -951,10 +1156,12 @@ class TX:
                     t = self.coerce(t, ty, T_Q, s)
                 else:
                     die(s, 'append of a %s to a %s' % (ty, cur[1]))
-            return 'let %s := (%s ++ [%s]) in\n  %s' % (cur[0], cur[0], t, self.block(rest, env, final))
+            return self.wraph(hs, 'let %s := (%s ++ [%s]) in\n  %s' % (cur[0], cur[0], t, self.block(rest, env, final)))
         if isinstance(s, ast.Raise):
             if rest or s.cause is not None or s.exc is None:
                 die(s, 'raise form')
+            if self.in_fold:
+                die(s, 'raise inside a loop')
             exc = s.exc.func if isinstance(s.exc, ast.Call) else s.exc
             nm = ast.unparse(exc).split('.')[-1]
             if nm not in EXN or not self.raises:
@@ -975,6 +1182,18 @@ class TX:
         if isinstance(s, ast.Assign):
             if len(s.targets) != 1:
                 die(s, 'multiple assignment')
+            if isinstance(s.targets[0], ast.Tuple):
+                # a, b = pair
+                t, ty = self.expr(s.value, env)
+                hs = self.take()
+                env = self.refined(env)
+                if ty[0] != 'P':
+                    die(s, 'unpacking of a %s' % (ty,))
+                env, pre = self.bind_target(s.targets[0], t, ty, env, s)
+                for n_ in ast.walk(s.targets[0]):
+                    if isinstance(n_, ast.Name):
+                        self.fresh.discard(n_.id)
+                return self.wraph(hs, '%s\n  %s' % (pre, self.block(rest, env, final)))
             r = self.ref(s.targets[0])
             if r is None:
                 die(s, 'assignment target')
@@ -989,10 +1208,20 @@ class TX:
             if isinstance(v, ast.Call) and ast.unparse(v) == 'set()':
                 env[r] = (None, 'EMPTYSET')
                 return self.block(rest, env, final)
+            if isinstance(v, ast.Constant) and v.value is None and isinstance(s.targets[0], ast.Name):
+                env[r] = (None, 'NONE')      # x = None: only usable as the start value of a loop variable (typed by the loop)
+                return self.block(rest, env, final)
             t, ty = self.expr(v, env)
+            hs = self.take()
+            env = self.refined(env)
             if self.reach is not None and r == self.reach:
                 self.ret_type = TO(ty)
                 return '(Some %s)' % t       # extraction stops here
+            if hs:
+                nm = self.newname(env, r)
+                env[r] = (nm, ty)
+                self.fresh.discard(r)
+                return self.wraph(hs, 'let %s := %s in\n  %s' % (nm, t, self.block(rest, env, final)))
             nm = self.newname(env, r)
             env[r] = (nm, ty)
             if isinstance(v, (ast.ListComp, ast.List, ast.BinOp)) or (isinstance(v, ast.Subscript) and isinstance(v.slice, ast.Slice)):
@@ -1008,11 +1237,13 @@ class TX:
             if cur[1][0] != 'L' or r not in self.fresh:
                 die(s, 'in-place extension of a list that may be shared with the caller')
             t, ty = self.expr(s.value, env)
+            hs = self.take()
+            env = self.refined(env)
             if ty != cur[1]:
                 die(s, 'extension of a %s by a %s' % (cur[1], ty))
             env = dict(env)
             env[r] = (cur[0], cur[1])
-            return 'let %s := (%s ++ %s) in\n  %s' % (cur[0], cur[0], t, self.block(rest, env, final))
+            return self.wraph(hs, 'let %s := (%s ++ %s) in\n  %s' % (cur[0], cur[0], t, self.block(rest, env, final)))
         if isinstance(s, ast.If):
             return self.if_stmt(s, rest, env, final)
         if isinstance(s, ast.For):
@@ -1044,7 +1275,7 @@ class TX:
 
     DROPPABLE_TESTS = ('votelib.evaluate.core.accepts_prev_gains',)
 
-    def branches(self, test, env):
+    def branches(self, test, env, defer=False):
         """(mk, env_then, env_else): mk(a, b) is the Coq conditional; an `x is (not) None` test on an optional value is a match
            that gives x its plain type on the not-None path"""
         if (isinstance(test, ast.Compare) and len(test.ops) == 1 and isinstance(test.ops[0], (ast.Is, ast.IsNot))
@@ -1059,7 +1290,12 @@ class TX:
                 return (lambda a, b: '(match %s with Some %s => %s | None => %s end)' % (text, inner, a, b)), some, env
             return (lambda a, b: '(match %s with None => %s | Some %s => %s end)' % (text, a, inner, b)), env, some
         c = self.cond(test, env)
-        return (lambda a, b: '(if %s then %s else %s)' % (c, a, b)), env, env
+        hs = self.take()
+        env = self.refined(env)
+        if defer:
+            self._deferred = hs      # the caller wraps a larger term
+            hs = []
+        return (lambda a, b: self.wraph(hs, '(if %s then %s else %s)' % (c, a, b))), env, env
 
     def stops(self, stmts):
         """every path through stmts ends the translated function (return / raise, or - in 'reach' extraction - the target assignment)"""
@@ -1109,17 +1345,19 @@ class TX:
             t, ty = e2[r]
             if ty == 'EMPTYLIST':
                 return '[]'                      # a list still empty on this path
-            if not isinstance(ty, (str, tuple)) or ty in ('EMPTYDICT', 'EMPTYSET', 'DEAD', 'KEYFN'):
+            if not isinstance(ty, (str, tuple)) or ty in ('EMPTYDICT', 'EMPTYSET', 'DEAD', 'KEYFN', 'NONE'):
                 die(s, 'conditional update of %s' % r)
             res.setdefault('ty', ty)
             if res['ty'] != ty:
                 die(s, 'types of %s on the two paths' % r)
             return t
         droppable = isinstance(s.test, ast.Call) and ast.unparse(s.test.func) in self.DROPPABLE_TESTS
+        self._deferred = []
         if droppable:
             mk, et, ee = None, env, env
         else:
-            mk, et, ee = self.branches(s.test, env)
+            mk, et, ee = self.branches(s.test, env, defer=True)
+        dhs = self._deferred
         fresh0 = set(self.fresh)
         a = self.block(s.body, et, fin)
         fa = r in self.fresh
@@ -1137,13 +1375,15 @@ class TX:
                 die(s.test, 'introspection test with different paths')
             self.notes.append('test %s at line %d dropped: both paths translate to the same term' % (ast.unparse(s.test), s.lineno))
             return 'let %s := (%s) in\n  %s' % (nm, a, self.block(rest, env, final))
-        return 'let %s := %s in\n  %s' % (nm, mk(a, b), self.block(rest, env, final))
+        return self.wraph(dhs, 'let %s := %s in\n  %s' % (nm, mk(a, b), self.block(rest, env, final)))
 
     def for_stmt(self, s, rest, env, final):
         if s.orelse:
             die(s, 'for-else')
         body = [x for x in s.body if not _is_doc(x)]
         it, ety = self.iterable(s.iter, env)
+        if self.pending:
+            die(s, 'operation that may raise in the iterable of a loop')
         # X = [] ... for v in it: ..; X.append(e)
         last = body[-1] if body else None
         if (isinstance(last, ast.Expr) and isinstance(last.value, ast.Call) and isinstance(last.value.func, ast.Attribute)
@@ -1197,7 +1437,172 @@ class TX:
             nm = self.newname(env, d)
             env[d] = (nm, ('U', ety) if self.is_unordered(s.iter, env) else TL(ety))
             return 'let %s := (filter (fun it_ => %s%s) %s) in\n  %s' % (nm, pre, c, it, self.block(rest, env, final))
-        die(s, 'for loop')
+        return self.for_fold(s, rest, env, final, it, ety)
+
+    # ---- a loop that updates locals: a structural fold over the iterable
+    #   x1 = e1 .. xk = ek                       (before the loop; `[]` and `None` start values are typed by the loop body)
+    #   for t in it: body                        (body: assignments, appends, conditionals; no return / raise / break / continue /
+    #                                             nested loop; nothing that may raise)
+    # -> let st := fold_left (fun st_ it_ => let x1 := fst st_ in .. <body> (x1', (.., xk'))) it (e1, (.., ek)) in let x1 := fst st in ..
+    # the state is the tuple of the locals the body assigns that exist before the loop; locals first assigned in the body and the
+    # loop targets are dead afterwards (their use stops the translation).
+    def loop_assigned(self, stmts, out):
+        for s in _strip(stmts):
+            ap = self.append_stmt(s)
+            if ap is not None:
+                refs = [ap[0]]
+            elif isinstance(s, ast.Assign) and len(s.targets) == 1:
+                tg = s.targets[0]
+                if isinstance(tg, ast.Tuple):
+                    refs = [n.id for n in ast.walk(tg) if isinstance(n, ast.Name)]
+                    if any(not isinstance(n, (ast.Name, ast.Tuple, ast.Store, ast.Load)) for n in ast.walk(tg)):
+                        die(s, 'assignment target inside a loop')
+                elif self.ref(tg) is not None:
+                    refs = [self.ref(tg)]
+                else:
+                    die(s, 'assignment target inside a loop')
+            elif isinstance(s, ast.AugAssign) and self.ref(s.target) is not None:
+                refs = [self.ref(s.target)]
+            elif isinstance(s, ast.If):
+                self.loop_assigned(s.body, out)
+                self.loop_assigned(s.orelse, out)
+                continue
+            else:
+                die(s, 'statement inside a loop')
+            for r in refs:
+                if r not in out:
+                    out.append(r)
+        return out
+
+    def infer_state(self, stmts, env, untyped, found):
+        """types of the loop variables that start as [] / None: from the first append / assignment in the body that can be typed"""
+        env = dict(env)
+        for s in _strip(stmts):
+            ap = self.append_stmt(s)
+            try:
+                if ap is not None:
+                    if untyped.get(ap[0]) == 'EMPTYLIST' and ap[0] not in found:
+                        found[ap[0]] = TL(self.expr(ap[1], env)[1])
+                elif isinstance(s, ast.Assign) and len(s.targets) == 1:
+                    tg = s.targets[0]
+                    t, ty = self.expr(s.value, env)
+                    if isinstance(tg, ast.Tuple):
+                        env, _ = self.bind_target(tg, t, ty, env, s)
+                    elif self.ref(tg) is not None:
+                        r = self.ref(tg)
+                        if r in untyped:
+                            if untyped[r] == 'NONE' and r not in found:
+                                found[r] = TO(ty)
+                            elif untyped[r] == 'EMPTYLIST' and r not in found and ty[0] == 'L':
+                                found[r] = ty
+                        else:
+                            env[r] = (self.newname(env, r), ty)
+                elif isinstance(s, ast.If):
+                    self.infer_state(s.body, env, untyped, found)
+                    self.infer_state(s.orelse, env, untyped, found)
+            except Unsupported:
+                continue
+        return found
+
+    def for_fold(self, s, rest, env, final, it, ety):
+        body = _strip(s.body)
+        for st_ in body:
+            for n in ast.walk(st_):
+                if isinstance(n, (ast.Return, ast.Raise, ast.Break, ast.Continue, ast.For, ast.While, ast.AsyncFor, ast.Try, ast.With,
+                                  ast.FunctionDef, ast.AsyncFunctionDef, ast.ClassDef, ast.Lambda, ast.Yield, ast.YieldFrom, ast.Await,
+                                  ast.Global, ast.Nonlocal, ast.Delete, ast.NamedExpr)):
+                    die(n, 'loop body form (%s)' % type(n).__name__)
+        if self.in_fold:
+            die(s, 'nested loop')
+        targets = [n.id for n in ast.walk(s.target) if isinstance(n, ast.Name)]
+        assigned = self.loop_assigned(body, [])
+        if any(r.startswith('self.') for r in assigned):
+            die(s, 'attribute assigned inside a loop')
+        if set(assigned) & set(targets):
+            die(s, 'loop target reassigned inside the loop')
+        state = [r for r in assigned if r in env]
+        local = [r for r in assigned if r not in env]
+        if not state:
+            die(s, 'loop without an effect on the translated locals')
+        for r in state:
+            if _mentions(s.iter, r):
+                die(s, 'loop over a value its own body changes')
+        env2, pre = self.bind_target(s.target, 'it_', ety, env, s)
+        untyped = {r: env[r][1] for r in state if env[r][1] in ('EMPTYLIST', 'NONE')}
+        saved = (self.pending, list(self.notes), set(self.fresh), self.nhoist, list(self.refine))
+        self.pending = None
+        try:
+            found = self.infer_state(body, env2, untyped, {})
+        finally:
+            self.pending, self.notes, self.fresh, self.nhoist, self.refine = saved
+        types, inits = {}, {}
+        for r in state:
+            t0, ty0 = env[r]
+            if r in untyped:
+                if r not in found:
+                    die(s, 'the loop never gives %s a value of a known type' % r)
+                types[r] = found[r]
+                inits[r] = '(%s : %s)' % ('[]' if ty0 == 'EMPTYLIST' else 'None', coq_type(found[r]))
+            else:
+                if not isinstance(ty0, (str, tuple)) or ty0 in ('EMPTYDICT', 'EMPTYSET', 'DEAD', 'KEYFN'):
+                    die(s, 'loop variable %s' % r)
+                types[r] = ty0
+                inits[r] = t0
+
+        def tuple_of(parts):
+            return parts[0] if len(parts) == 1 else '(%s, %s)' % (parts[0], tuple_of(parts[1:]))
+
+        def projections(var):
+            out, cur = [], var
+            for i in range(len(state)):
+                if i == len(state) - 1:
+                    out.append(cur)
+                else:
+                    out.append('(fst %s)' % cur)
+                    cur = '(snd %s)' % cur
+            return out
+        # the body, as a function of the state
+        env3 = dict(env2)
+        lets = ''
+        fresh0 = set(self.fresh)
+        for r, pr in zip(state, projections('st_')):
+            nm = self.newname(env3, r)
+            env3[r] = (nm, types[r])
+            lets += 'let %s := %s in ' % (nm, pr)
+            if r in untyped and untyped[r] == 'EMPTYLIST' or r in self.fresh:
+                self.fresh.add(r)       # a list built by this function: appending to it inside the loop is not visible elsewhere
+
+        def fin(e2):
+            parts = []
+            for r in state:
+                t, ty = e2[r]
+                want = types[r]
+                if ty == want:
+                    parts.append(t)
+                elif want[0] == 'O' and ty == want[1]:
+                    parts.append('(Some %s)' % t)
+                elif ty in (T_Z, T_Q, TL(T_Z)) or isinstance(ty, tuple):
+                    parts.append(self.coerce(t, ty, want, s))
+                else:
+                    die(s, 'loop variable %s ends an iteration as %s' % (r, ty))
+            return tuple_of(parts)
+        saved_pending, self.pending, self.in_fold = self.pending, None, True
+        try:
+            step = self.block(body, env3, fin)
+        finally:
+            self.pending, self.in_fold = saved_pending, False
+        self.fresh = fresh0 | {r for r in state if r in self.fresh and (r in fresh0 or r in untyped)}
+        env = dict(env)
+        stv = "st'%d" % (self.nhoist + 1)
+        self.nhoist += 1
+        out = 'let %s := (fold_left (fun st_ it_ => %s%s%s) %s %s) in\n  ' % (stv, lets, pre, step, it, tuple_of([inits[r] for r in state]))
+        for r, pr in zip(state, projections(stv)):
+            nm = self.newname(env, r)
+            env[r] = (nm, types[r])
+            out += 'let %s := %s in ' % (nm, pr)
+        for r in local + targets:
+            env[r] = (None, 'DEAD')      # bound by the last iteration only (not at all when the iterable is empty)
+        return out + '\n  ' + self.block(rest, env, final)
 
 
 def _strip(stmts):
@@ -1362,13 +1767,60 @@ def _bind_positional(positional, env, locs, targets, node, free=None):
             die(node, 'positional reference %s' % r)
 
 
-def translate_typed(path, defs, module):
-    """defs: list of dict(name, cls|None, fn, kind, params=[(coq name, python reference, type)], ..) - see TYPED_JOBS"""
+def _module_names(tree):
+    """how the module binds a name, for the names it binds EXACTLY once anywhere (top level or nested, any binding form):
+       'import' (plain `import name` at top level), 'class:<base>' / 'class' / 'def' (top-level definition), else 'other';
+       names bound more than once map to 'many'"""
+    count, how = {}, {}
+
+    def bind(name, what):
+        count[name] = count.get(name, 0) + 1
+        how[name] = what
+    top = set(id(n) for n in tree.body)
+    for n in ast.walk(tree):
+        if isinstance(n, ast.Name) and isinstance(n.ctx, (ast.Store, ast.Del)):
+            bind(n.id, 'other')
+        elif isinstance(n, (ast.FunctionDef, ast.AsyncFunctionDef)):
+            bind(n.name, 'def' if id(n) in top and isinstance(n, ast.FunctionDef) else 'other')
+            a = n.args
+            for x in a.posonlyargs + a.args + a.kwonlyargs + ([a.vararg] if a.vararg else []) + ([a.kwarg] if a.kwarg else []):
+                bind(x.arg, 'other')
+        elif isinstance(n, ast.ClassDef):
+            if id(n) in top and not n.keywords and not n.decorator_list:
+                bind(n.name, 'class:' + ast.unparse(n.bases[0]) if len(n.bases) == 1 else 'class')
+            else:
+                bind(n.name, 'other')
+        elif isinstance(n, ast.Import):
+            for al in n.names:
+                if al.asname:
+                    bind(al.asname, 'other')
+                else:
+                    bind(al.name.split('.')[0], 'import' if id(n) in top and '.' not in al.name else 'other')
+        elif isinstance(n, ast.ImportFrom):
+            for al in n.names:
+                bind(al.asname or al.name, 'other')
+        elif isinstance(n, ast.ExceptHandler) and n.name:
+            bind(n.name, 'other')
+        elif isinstance(n, (ast.Global, ast.Nonlocal)):
+            for x in n.names:
+                bind(x, 'other')
+        elif isinstance(n, (ast.MatchAs, ast.MatchStar)) and n.name:
+            bind(n.name, 'other')
+        elif isinstance(n, ast.MatchMapping) and n.rest:
+            bind(n.rest, 'other')
+    return {k: (how[k] if count[k] == 1 else 'many') for k in count}
+
+
+def translate_typed(path, defs, module, known0=None):
+    """defs: list of dict(name, cls|None, fn, kind, params=[(coq name, python reference, type)], ..) - see TYPED_JOBS
+       known0: translated functions of OTHER modules, by dotted name (entries carry 'module')"""
     tree = ast.parse(open(path).read())
     classes = {n.name: n for n in tree.body if isinstance(n, ast.ClassDef)}
     funcs = {n.name: n for n in tree.body if isinstance(n, ast.FunctionDef)}
     rebound = _rebound_names(tree)
-    out, status, known, notes = [], {}, {}, {}
+    module_names = _module_names(tree)
+    imports = {al.name for n in tree.body if isinstance(n, ast.Import) for al in n.names if al.asname is None}
+    out, status, known, notes = [], {}, dict(known0 or {}), {}
     for d in defs:
         name = d['name']
         try:
@@ -1401,8 +1853,11 @@ def translate_typed(path, defs, module):
                 die(fd, 'the module rebinds %s, which the translator reads with a fixed meaning' % sorted(used))
             kind = d['kind']
             in_handler = set(id(m) for n in ast.walk(fd) if isinstance(n, ast.ExceptHandler) for m in ast.walk(n))
-            raises = kind == 'body' and any(isinstance(n, ast.Raise) and id(n) not in in_handler for n in ast.walk(fd))
+            raises = kind == 'body' and (bool(d.get('raises')) or any(isinstance(n, ast.Raise) and id(n) not in in_handler for n in ast.walk(fd)))
             tx = TX(known, raises)
+            tx.imports, tx.module_names = imports, module_names
+            if not d.get('cls') and module_names.get(d['fn']) != 'def':
+                die(fd, 'the module binds the name %s more than once' % d['fn'])
             env = {}
             positional = []      # names bound by position (comprehension / loop targets, leading locals): coq name, type
             for cn, r, ty in d['params']:
@@ -1498,6 +1953,7 @@ def translate_typed(path, defs, module):
         except Unsupported as e:
             status[name] = 'unsupported: %s' % e
     missing = [d['name'] for d in defs if status.get(d['name']) != 'ok']
+    translate_typed.last_known = known
     return out, status, missing, notes
 
 
@@ -1553,6 +2009,88 @@ TYPED_JOBS = [
              params=[P_AE, ('threshold', '@free0', T_Q), ('votes', 'votes', VOTES)]),
     ]),
 ]
+
+# ---- the central selection primitive (unit Core -> Gen/Core.v): util.sorted_votes, core.get_n_best, Plurality.evaluate, translated
+# as WHOLE BODIES (the stable sort with the key / reverse arguments the source passes; the guard cascade, the indexing with its
+# IndexError, the loop collecting the tied group as a fold, the slices, [Tie(tied)] * n_tie_places).  get_n_best calls the generated
+# sorted_votes, Plurality.evaluate the generated get_n_best.  Props/GenTie_Core.v proves them equal to Model/GetNBest.v.
+CORE_HEADER = """(* GENERATED by tools/py2v.py from %s -- do not edit. *)
+From Coq Require Import String.
+From Coq Require Import ZArith QArith List Bool.
+From VL Require Import Prelude.PyDict Prelude.PyNum Prelude.PyList Prelude.PySeq Model.GetNBest.
+Import ListNotations.
+(* Model.GetNBest is imported for the result type only ([res]: Cand c | TieR l); sorted(), enumerate(), l[i] are read by
+   Prelude/PySeq.v; an operation that may raise is a match on its optional result, in evaluation order. *)
+"""
+P_VOTES, P_NSEATS = ('votes', 'votes', VOTES), ('n_seats', 'n_seats', T_Z)
+CORE_UTIL = ('votelib/util.py', [
+    dict(name='sorted_votes', cls=None, fn='sorted_votes', kind='body', params=[P_VOTES, ('descending', 'descending', T_B)]),
+])
+CORE_CORE = ('votelib/evaluate/core.py', [
+    dict(name='get_n_best', cls=None, fn='get_n_best', kind='body', raises=True, ret=TL(T_RES), params=[P_VOTES, P_NSEATS]),
+    dict(name='Plurality_evaluate', cls='Plurality', fn='evaluate', kind='body', raises=True, ret=TL(T_RES), params=[P_VOTES, P_NSEATS]),
+])
+# approval.QuotaSelector.evaluate once more (unit CoreQsel -> Gen/CoreQsel.v), its closing `return votelib.evaluate.core.get_n_best(..)`
+# now handing over to the GENERATED get_n_best (Gen/Approval.v, a unit of C16, reads that call as the model)
+COREQSEL_HEADER = """(* GENERATED by tools/py2v.py from %s -- do not edit. *)
+From Coq Require Import String.
+From Coq Require Import ZArith QArith List Bool.
+From VL Require Import Prelude.PyDict Prelude.PyNum Prelude.PyList Prelude.PySeq Model.GetNBest.
+From VL Require Gen.Core.
+Import ListNotations.
+"""
+COREQSEL = ('votelib/evaluate/approval.py', [
+    dict(name='QuotaSelector_evaluate', cls='QuotaSelector', fn='evaluate', kind='body', ret=TL(T_RES),
+         ctor={'quota_function': 'votelib.component.quota.construct(quota_function)'},
+         params=[('quota_function', 'self.quota_function', TFUN([T_Q, T_Z], T_Q)), P_AE,
+                 ('on_more_over_quota', 'self.on_more_over_quota', T_STR), P_VOTES, P_NSEATS]),
+])
+
+
+def translate_core(repo):
+    """-> (Core.v text, Core status, CoreQsel.v text, CoreQsel status)"""
+    srcs = '%s, %s' % (CORE_UTIL[0], CORE_CORE[0])
+    functions, notes, defs_out, missing = {}, {}, [], []
+    known_core = None
+    try:
+        d1, s1, m1, n1 = translate_typed(os.path.join(repo, CORE_UTIL[0]), CORE_UTIL[1], CORE_UTIL[0])
+        functions.update(s1)
+        notes.update(n1)
+        defs_out += d1
+        missing += m1
+        k0 = {}
+        if not m1:
+            k0['votelib.util.sorted_votes'] = dict(translate_typed.last_known['sorted_votes'], module='votelib.util')
+        # without a translated sorted_votes the call inside get_n_best is not translated at all (fail closed): the empty entry stops it
+        d2, s2, m2, n2 = translate_typed(os.path.join(repo, CORE_CORE[0]), CORE_CORE[1], CORE_CORE[0],
+                                         k0 or {'votelib.util.sorted_votes': dict(coq='sorted_votes', params=[], ret=VOTES, raises=False,
+                                                                                  module='votelib.util (not translated)')})
+        functions.update(s2)
+        notes.update(n2)
+        defs_out += d2
+        missing += m2
+        if not m2:
+            known_core = dict(translate_typed.last_known['get_n_best'], module='votelib.evaluate.core', coq='Gen.Core.get_n_best')
+        st = dict(status='ok' if not missing else 'partial', functions=functions, missing=missing, source=srcs, notes=notes)
+        text = (CORE_HEADER % srcs) + '\n' + '\n\n'.join(defs_out) + '\n'
+    except (Unsupported, SyntaxError, OSError) as e:
+        text = CORE_HEADER % srcs
+        st = dict(status='failed', reason=str(e), source=srcs, missing=[d['name'] for d in CORE_UTIL[1] + CORE_CORE[1]])
+    qrel = COREQSEL[0]
+    qnames = [d['name'] for d in COREQSEL[1]]
+    if st['status'] != 'ok' or known_core is None:
+        qtext = COREQSEL_HEADER % qrel
+        qst = dict(status='failed', reason='unit Core is not translated', source=qrel, missing=qnames)
+    else:
+        try:
+            d3, s3, m3, n3 = translate_typed(os.path.join(repo, qrel), COREQSEL[1], qrel, {'votelib.evaluate.core.get_n_best': known_core})
+            qtext = (COREQSEL_HEADER % qrel) + '\n' + '\n\n'.join(d3) + '\n'
+            qst = dict(status='ok' if not m3 else 'partial', functions=s3, missing=m3, source=qrel, notes=n3)
+        except (Unsupported, SyntaxError, OSError) as e:
+            qtext = COREQSEL_HEADER % qrel
+            qst = dict(status='failed', reason=str(e), source=qrel, missing=qnames)
+    return text, st, qtext, qst
+
 
 RANK_TYPED = [
     dict(name='select_padded', cls=None, fn='select_padded', kind='body',
@@ -2325,6 +2863,12 @@ def main():
         old = open(dst).read() if os.path.exists(dst) else None
         if old != text:
             open(dst, 'w').write(text)
+    # the selection primitive: util.sorted_votes, core.get_n_best, Plurality.evaluate (+ QuotaSelector.evaluate on top of it)
+    ctext, st['Core'], qtext, st['CoreQsel'] = translate_core(repo)
+    for path_, t_ in ((os.path.join(outdir, 'Core.v'), ctext), (os.path.join(outdir, 'CoreQsel.v'), qtext)):
+        old = open(path_).read() if os.path.exists(path_) else None
+        if old != t_:
+            open(path_, 'w').write(t_)
     # part 5: class / signature tables of the whole package
     dst = os.path.join(outdir, 'Signatures.v')
     jdst = os.path.join(outdir, 'Signatures.json')
